@@ -249,6 +249,8 @@ func ZZH_C03_rule_update() {
 // chain's service has a symbolic status at that moment. Afterwards the service is unusable, and
 // it stays unusable whatever service-level operation the chain admin or a governance admin then
 // submits and gets approved (activate / unfreeze attempts) while the chain is not available.
+// After an approved logout none of the chain's rules - self-deployed or built-in - is usable any more.
+// zz:also C03
 func ZZH_C16_chain_cascade() {
 	w, cs := zzFullWorld()
 	w.audit = zz.Choice("audit", 2) == 1
@@ -263,7 +265,12 @@ func ZZH_C16_chain_cascade() {
 	list.Set(id, struct{}{})
 	w.putObj(zzServiceAddr, service_mgr.AppchainServicesKey("chA"), list)
 	w.putObj(zzAppchainAddr, appchainMgr.AppchainKey("chA"), appchainMgr.Appchain{ID: "chA", ChainName: "chA", ChainType: "fabric", Status: governance.GovernanceAvailable})
-	w.putObj(zzRuleAddr, ruleMgr.RuleKey("chA"), []*ruleMgr.Rule{{Address: "0xM000000000000000000000000000000000000001", ChainID: "chA", Master: true, Status: governance.GovernanceAvailable}})
+	// the chain's master rule is a self-deployed or a built-in one; a second, bindable rule may exist
+	rules := []*ruleMgr.Rule{{Address: "0xM000000000000000000000000000000000000001", ChainID: "chA", Master: true, Default: zz.Choice("masterIsBuiltin", 2) == 1, Status: governance.GovernanceAvailable}}
+	if zz.Choice("spareRule", 2) == 1 {
+		rules = append(rules, &ruleMgr.Rule{Address: "0xN000000000000000000000000000000000000002", ChainID: "chA", Default: zz.Choice("spareIsBuiltin", 2) == 1, Status: governance.GovernanceBindable})
+	}
+	w.putObj(zzRuleAddr, ruleMgr.RuleKey("chA"), rules)
 	w.putObj(zzAppchainAddr, appchainMgr.AppAdminsChainKey("chA"), []string{zzChainAdminA})
 	w.putObj(zzAppchainAddr, appchainMgr.AppchainAdminKey(zzChainAdminA), "chA")
 	// the chain operation is submitted through its real entry point (logout pauses the chain's
@@ -294,6 +301,12 @@ func ZZH_C16_chain_cascade() {
 	zz.Assert("C16.cascade.service-unusable", !svc().IsAvailable())
 	if ev == governance.EventLogout {
 		zz.Assert("C16.cascade.logout-clears-service", svc().Status == governance.GovernanceForbidden)
+		// (C03) a logged-out appchain has no bound rule left: nothing the proof pool could validate its proofs with
+		var after []*ruleMgr.Rule
+		w.getObj(zzRuleAddr, ruleMgr.RuleKey("chA"), &after)
+		for _, r := range after {
+			zz.Assert("C03.cascade.logged-out-chain-has-no-usable-rule", r.Status != governance.GovernanceAvailable)
+		}
 	}
 	// afterwards: somebody entitled tries to bring the service back while the chain is unavailable
 	callers := []string{zzChainAdminA, zzAdminIDs[0]}
